@@ -107,11 +107,13 @@ public:
     }
 
     // PERFORMANCE_CHECK: Is this constructor necessary?
-    template <typename ChannelV, typename Mapping>
-    planar_pixel_reference(pixel<ChannelV, layout<ColorSpace, Mapping>>& p)
+    // Layout is deduced as a whole: layouts derived from layout<> (devicen_layout_t<N>) must match too,
+    // otherwise a mutable pixel is taken by the Pixel const& constructor, which cannot bind mutable channels.
+    template <typename ChannelV, typename Layout>
+    planar_pixel_reference(pixel<ChannelV, Layout>& p)
        : parent_t(p)
     {
-        check_compatible<pixel<ChannelV, layout<ColorSpace, Mapping>>>();
+        check_compatible<pixel<ChannelV, Layout>>();
     }
 
     // Construct at offset from a given location
